@@ -213,8 +213,8 @@ PROPS = {
                      quick=dict(chunks=8, maxlen=2, random=4, allx=1, modeltypes=3),
                      thorough=dict(chunks=16, maxlen=3, random=40, allx=1, modeltypes=5)),
                 # "through the complete writer the rejected shape's attribute row is not written either"
-                dict(cmd="complete", spec="Trace_Complete", quick=dict(chunks=4, maxlen=3, types=13, random=4),
-                     thorough=dict(chunks=8, maxlen=5, types=13, random=40))],
+                dict(cmd="complete", spec="Trace_Complete", quick=dict(chunks=4, maxlen=4, types=13, random=4, alpha="ox"),
+                     thorough=dict(chunks=8, maxlen=7, types=13, random=40, alpha="ox"))],
         rule="a run = one history with a shape of another type offered at every position; all ordered pairs (file type, offered type)",
     ),
     "C01": dict(
@@ -227,7 +227,7 @@ PROPS = {
         mc=[CODEC_MC],
         stages=[dict(cmd="codec", spec="Trace_Codec", gen="Gen_Shapes",
                      quick=dict(chunks=6, cases=8, large=1),
-                     thorough=dict(chunks=16, cases=40, large=4, sweep=1))],
+                     thorough=dict(chunks=16, cases=120, large=8, sweep=1))],
         rule="a case = a file of 1..4 random shapes of one type (13 types; small/medium/large part structures; "
              "special Z/M values below/at/above the no-data threshold and NaN placed at every vertex position) "
              "read back along 16+ routes; one concretisation of the value ids per trace file; distinct = cases",
